@@ -116,6 +116,10 @@ def run(rep, tier):
     rep.rule("R1", "TYPE_* constants are marshal.c's type codes; the keys of unmarshal's dispatch table are the same codes")
     rep.rule("R2", "a writer registered under a plain type emits the type byte followed by that code's payload layout (little-endian widths, length = number of payload bytes)")
     rep.rule("R3", "every argument of the byte sink is bytes, a one-byte-per-char text (chr(x & 0xFF), ASCII literal, repr of a number), never raw user text; text is utf-8 encoded before its length is written")
+    rep.rule("R5", "both readers decode TYPE_UNICODE payloads as utf-8 with surrogatepass")
+    rep.rule("R6", "dump() and dumps(): the marshaller's chunk sink is a local buffer converted to bytes by dumps(); what dump() writes to the file is dumps()'s result")
+    rep.rule("R7", "the file-based reader (load): the type byte is decoded before it indexes the str-keyed dispatch table; r_byte/r_short/r_long/r_long64 "
+                   "return the little-endian integer of the bytes read")
     rep.rule("R4", "fast readers consume the layout of their type code; r_long/r_short are little-endian with sign extension from the top bit")
     T = tables()
     F = T.F
@@ -334,5 +338,108 @@ def run(rep, tier):
             else:
                 kinds.add("?" + sv[:40])
         rep.ob("R4", f.qualname, "code=%r:kind" % code, kinds == {kind}, expected=kind, derived=sorted(kinds))
+    # ---------------------------------------------------------------- R5 text decoding of TYPE_UNICODE in both readers
+    import ast as _ast
+    UMC = mm.ns.get("_Unmarshaller")
+    if not isinstance(UMC, ClassRef):
+        raise AnalysisError("anchor vanished: xdis.marsh._Unmarshaller")
+    for C in (FU, UMC):
+        f = C.ns.get("dispatch", {}).get("u") if isinstance(C.ns.get("dispatch"), dict) else None
+        if not isinstance(f, FuncRef):
+            rep.ob("R5", "xdis.marsh.%s.dispatch" % C.name, "reader-for:'u'", False, expected="a load_unicode function", derived=repr(f))
+            continue
+        rep.analysed(f.qualname)
+        decs = [c for c in _ast.walk(f.node) if isinstance(c, _ast.Call) and isinstance(c.func, _ast.Attribute) and c.func.attr == "decode"]
+        good = False
+        got = []
+        for c in decs:
+            a = [x.value for x in c.args if isinstance(x, _ast.Constant)] + [k.value.value for k in c.keywords if isinstance(k.value, _ast.Constant)]
+            got.append(a)
+            if a and str(a[0]).lower().replace("-", "") == "utf8" and "surrogatepass" in a:
+                good = True
+        rep.ob("R5", f.qualname, "unicode-decode", good, expected="decode('utf-8', 'surrogatepass')", derived=got,
+               msg="TYPE_UNICODE payloads are utf-8 written with errors='surrogatepass'; a strict decode rejects the host's marshal.dumps('\\ud800')")
+    # ---------------------------------------------------------------- R6 entry points hand bytes to their sink
+    n_ctor = 0
+    for fname in ("dump", "dumps"):
+        f = mm.ns.get(fname)
+        if not isinstance(f, FuncRef):
+            raise AnalysisError("anchor vanished: xdis.marsh.%s" % fname)
+        rep.analysed(f.qualname)
+        params = {a.arg for a in f.node.args.args}
+        for c in _ast.walk(f.node):
+            if isinstance(c, _ast.Call) and isinstance(c.func, _ast.Name) and c.func.id == "_Marshaller" and c.args:
+                n_ctor += 1
+                w = c.args[0]
+                local_buffer = isinstance(w, _ast.Attribute) and w.attr == "append" and isinstance(w.value, _ast.Name) and w.value.id not in params
+                rep.ob("R6", f.qualname, "marshaller-sink:%s" % _ast.unparse(w), local_buffer, expected="<local buffer>.append (chunks are converted to bytes by dumps())",
+                       derived=_ast.unparse(w), msg="the marshaller emits str chunks (chr()-built); handing them to %s writes text to a binary stream (TypeError on Python 3)" % _ast.unparse(w))
+            if isinstance(c, _ast.Call) and isinstance(c.func, _ast.Attribute) and c.func.attr == "write" and isinstance(c.func.value, _ast.Name) and c.func.value.id in params:
+                a0 = c.args[0] if c.args else None
+                okw = isinstance(a0, _ast.Call) and isinstance(a0.func, _ast.Name) and a0.func.id == "dumps"
+                rep.ob("R6", f.qualname, "file-write:%s" % _ast.unparse(c)[:50], okw, expected="f.write(dumps(...))", derived=_ast.unparse(a0) if a0 is not None else None,
+                       msg="what is written to the file is not the bytes assembled by dumps()")
+    rep.floor("_Marshaller constructions in dump/dumps", n_ctor, 1)
+    # ---------------------------------------------------------------- R7 the file-based reader works on bytes
+    cnt7 = [0]
+
+    def hook7(spec, name, fv, args, kw, node):
+        if name == "readfunc":
+            cnt7[0] += 1
+            return Sym("rd#%d" % cnt7[0], "bytes", {"n": args[0] if args else None})
+        return NotImplemented
+    udisp = UMC.ns.get("dispatch")
+    opaque = set(q.qualname for q in udisp.values() if isinstance(q, FuncRef)) if isinstance(udisp, dict) else set()
+
+    def run_um(meth):
+        f = UMC.lookup(meth)
+        if not isinstance(f, FuncRef):
+            raise AnalysisError("anchor vanished: xdis.marsh._Unmarshaller.%s" % meth)
+        me = Instance(UMC)
+        me.attrs.update(_read=Sym("readfunc", "func"), _stringtable=Sym("stringtable", "list"), python_version=None)
+        sp = Spec(F, hooks=[hook7], opaque_funcs=opaque - {f.qualname})
+        out = sp.run(f, [me])
+        rep.analysed(f.qualname)
+        return f, sp, out
+    f, sp, out = run_um("load")
+    keys = []
+    for g, l in leaves(out):
+        if isinstance(l, Ret):
+            v = l.value
+            if isinstance(v, Op) and v.op == "call" and isinstance(v.args[0], Op) and v.args[0].op in ("index", "index?"):
+                keys.append(v.args[0].args[-1])
+    okk = bool(keys) and all("decode" in show(k) or show(k).startswith("call('chr'") or show(k).startswith("call('str'") for k in keys)
+    rep.ob("R7", f.qualname, "dispatch-key-is-text", okk, expected="the type byte read from the file is decoded before it indexes the str-keyed dispatch table",
+           derived=[show(k) for k in keys], msg="bytes read from a binary file never equal the str type codes: every load() ends in 'bad marshal code'")
+    from ..sve import atoms_of, eval_term
+    for meth, nbytes in (("r_byte", 1), ("r_short", 2), ("r_long", 4), ("r_long64", 8)):
+        f, sp, out = run_um(meth)
+        rets = [(g, l.value) for g, l in leaves(out) if isinstance(l, Ret)]
+        atoms = {}
+        for g, v in rets:
+            atoms_of(v, atoms)
+            atoms_of(list(g), atoms)
+        raw = sorted(k for k, a in atoms.items() if isinstance(a, Sym) and a.kind == "bytes")
+        byte_atoms = sorted((k for k, a in atoms.items() if isinstance(a, Op) and a.op == "byte"), key=lambda k: (int(k.split("rd#")[1].split(",")[0]), k))
+        ok_int = bool(rets) and not raw and len(byte_atoms) == nbytes
+        bad = []
+        if ok_int:
+            pats = [tuple((0xFF if (m_ >> k) & 1 else 0x00) for k in range(nbytes)) for m_ in range(1 << min(nbytes, 8))] + [tuple([1] * (nbytes - 1) + [t]) for t in (0x00, 0x7F, 0x80, 0xFF)]
+            for pat in pats:
+                val = dict(zip(byte_atoms, pat))
+                got = "no-return"
+                try:
+                    for g, v in rets:
+                        if all(eval_term(c, val) for c in g):
+                            got = eval_term(v, val)
+                            break
+                except Exception as ex:
+                    got = "unevaluable: %s" % ex
+                want = int.from_bytes(bytes(pat), "little", signed=(meth != "r_byte"))
+                if got != want:
+                    bad.append((list(pat), want, got))
+        rep.ob("R7", f.qualname, "integer-from-bytes", ok_int and not bad, expected="little-endian %s integer of the %d bytes read" % ("unsigned" if meth == "r_byte" else "signed", nbytes),
+               derived=(["returns the bytes object %s" % r for r in raw] or bad[:3] or "equal on %d byte patterns" % len(pats)) if rets else "no return",
+               msg="%s does not turn the bytes read from the file into the integer they encode" % meth)
     rep.assumptions = ["reference/marshal_format.json (marshal.c type codes and layouts)", "value equality of dumps/loads results is not decided (repr/float parsing, digit arithmetic)",
                        "the host's marshal.loads accepts TYPE_FLOAT/TYPE_COMPLEX/TYPE_LONG in every version 3.8-3.13 (marshal.c)"]
